@@ -6,6 +6,7 @@ import (
 	"fmt"
 	"math/rand"
 	"net"
+	"os"
 	"sync"
 	"time"
 
@@ -252,6 +253,12 @@ func judgeClientCase(r *vlib.Run, mode string, trial int, cc *clientCase, phases
 	r.Eval(1)
 	r.Count("calls_"+cc.Entry, 1)
 	if timedOut {
+		if dbg := os.Getenv("C12_DEBUG_LOG"); dbg != "" { // development aid
+			if f, err := os.OpenFile(dbg, os.O_APPEND|os.O_CREATE|os.O_WRONLY, 0o644); err == nil {
+				fmt.Fprintf(f, "watchdog: mode=%s trial=%d case=%+v out=%s responses=%q\n", mode, trial, *cc, out, texts)
+				f.Close()
+			}
+		}
 		r.Inconclusive(cc.Entry + ": case exceeded the watchdog")
 		return "inconclusive"
 	}
@@ -273,9 +280,13 @@ func judgeClientCase(r *vlib.Run, mode string, trial int, cc *clientCase, phases
 	var culprit *pb.SubscribeResponse
 	for _, x := range all {
 		one := [][]*pb.SubscribeResponse{{x, syncResp}}
-		if cc.qt == client.Stream {
+		switch {
+		case cc.qt == client.Stream:
 			// In streaming group display single updates are shown after the sync.
 			one = [][]*pb.SubscribeResponse{{syncResp, x, syncResp}}
+		case cc.qt == client.Poll && (cc.Display == "" || cc.Display == "group"):
+			// The polling protocol: the server syncs, then answers the poll trigger.
+			one = [][]*pb.SubscribeResponse{{x}, {}}
 		}
 		if _, p2, _, _ := runClientCase(cc, one); p2 != nil && p2.Kind == pi.Kind {
 			culprit = x
